@@ -44,12 +44,21 @@ fn push_case(v: &mut Vec<Case>, buf: &[u8], pos: usize, tag: &str) {
     let out = impl_name(buf, pos);
     let h = text::hex(buf);
     let trivial = class_of(&out) == "err" && buf.len() <= pos;
-    v.push(
-        Case::new(format!("name.parse {} {}", h, pos), out)
-            .tag(tag)
-            .trivial(trivial)
-            .spec(format!("spec.name {} {}", h, pos), check),
-    );
+    let mut c = Case::new(format!("name.parse {} {}", h, pos), out.clone())
+        .tag(tag)
+        .trivial(trivial)
+        .spec(format!("spec.name {} {}", h, pos), check);
+    // decoded *exactly* as RFC 1035 prescribes: a name the independent decoder reads through pointers
+    // to prior positions only, with labels of 1..63 bytes and at most 255 bytes expanded, is not refused
+    if class_of(&out) == "err" {
+        if let Some((labels, ptrs)) = crate::walker::decode_name(buf, pos) {
+            let wire: usize = labels.iter().map(|l| l.len() + 1).sum::<usize>() + 1;
+            if ptrs.iter().all(|(p, t)| t < p) && wire <= 255 {
+                c = c.fail("rejects-decodable-name", format!("the library refuses a name of {} label(s) reached through {} backward pointer(s)", labels.len(), ptrs.len()));
+            }
+        }
+    }
+    v.push(c);
 }
 
 /// a message-like buffer with label runs, pointer chains, pointers into anything
@@ -188,6 +197,28 @@ pub fn cases(tier: &str, seed: u64) -> Vec<Case> {
             }
         }
         refenc::COMPRESS_GATEWAY.store(false, std::sync::atomic::Ordering::Relaxed);
+    }
+    // depth of indirection: names nested "new label + pointer to the previous name" (what a compressing
+    // writer emits for a.b.c.d..., b.c.d..., c.d...) and pure pointer-to-pointer chains, 1 to 40 hops
+    for depth in 1..=40usize {
+        let mut nested = vec![0u8; 3];            // offset 3: the innermost name, one label and the root
+        nested.extend_from_slice(&[1, b'z', 0]);
+        let mut prev = 3usize;
+        for k in 0..depth {
+            let here = nested.len();
+            nested.extend_from_slice(&[1, b'a' + (k % 26) as u8, 0xC0, prev as u8]);
+            prev = here;
+            if prev > 250 { break; }
+        }
+        push_case(&mut v, &nested, prev, "nested-depth");
+        let mut chain = vec![2u8, b'o', b'k', 0];  // offset 0: a name; then pointers to pointers
+        let mut at = 0usize;
+        for _ in 0..depth {
+            let here = chain.len();
+            chain.extend_from_slice(&[0xC0, at as u8]);
+            at = here;
+        }
+        push_case(&mut v, &chain, at, "chain-depth");
     }
     let mut r = Rng::new(seed);
     let n = if tier == "thorough" { 400_000 } else { 20_000 };
